@@ -247,7 +247,8 @@ def run(ctx):
     call = P.func(MOD, "IpcCommand.__call__")
     handled = None
     for h in (h for t in ast.walk(call.node) if isinstance(t, ast.Try) for h in t.handlers):
-        if h.type is not None and any(isinstance(n, ast.Name) and n.id == "nonfatal" for n in ast.walk(h)):
+        # the handler that either answers with (code, message) or re-raises the same class with the helper's name attached
+        if h.type is not None and any(isinstance(n, ast.Raise) and isinstance(n.exc, ast.Call) and A.unparse(n.exc.func) == A.unparse(h.type) for n in ast.walk(h)):
             handled = P.resolve_name(ipc, A.unparse(h.type))
     ctx.require(handled is not None and hasattr(handled, "methods"), "IpcCommand.__call__: the handler that answers a nonfatal command failure was not found")
 
